@@ -127,6 +127,215 @@ theorem LibInv_congr {Wg : Name → Corr} {E E' : Name → List Corr} {lib : Lib
   rw [h g] at this
   exact this
 
+/-! ### the two passes of `GroupLibrary.Update` (repair of FA1) -/
+
+/-- whether `update` raises, and what, depends on the data fields of the target only -/
+theorem update_err_congr (ev : RawEval) (c : Corr) (b1 b2 : Bool) (d : Corr) (ow : Bool) :
+    (update ev ⟨c, b1⟩ d ow).2 = (update ev ⟨c, b2⟩ d ow).2 := by
+  unfold update
+  simp only
+  cases mergeCp ow c.cp c.cp d.cp with
+  | error e => rfl
+  | ok cp =>
+    simp only
+    cases mergeRefs ev ow c d cp (unionRange c.range d.range) with
+    | error e => rfl
+    | ok HS =>
+      obtain ⟨H, S⟩ := HS
+      simp only
+      cases checkValid cp c.Tref (unionRange c.range d.range) with
+      | error e => rfl
+      | ok u => rfl
+
+/-- a copy holds the data of the original -/
+theorem copy_c {m m' : Obj} (h : copy m = .ok m') : m'.c = m.c := by
+  unfold copy mk at h
+  split at h
+  · cases h; rfl
+  · cases h
+
+/-- the trial on a copy raises what the call on the original raises -/
+theorem update_copy_err (ev : RawEval) {m m' : Obj} (h : copy m = .ok m') (d : Corr) (ow : Bool) :
+    (update ev m' d ow).2 = (update ev m d ow).2 := by
+  have hc := copy_c h
+  obtain ⟨c, b⟩ := m
+  obtain ⟨c', b'⟩ := m'
+  simp only at hc
+  subst hc
+  exact update_err_congr ev _ _ _ d ow
+
+/-- the storing pass writes the group it handles and nothing else -/
+theorem updateGroup_fst (ev : RawEval) (ow : Bool) (cur : Lib) (g : Name) (ps : Option Obj) :
+    ∃ v, (updateGroup ev ow cur g ps).1 = libInsert g v cur := by
+  unfold updateGroup
+  cases ps with
+  | none => exact ⟨_, rfl⟩
+  | some o =>
+    simp only
+    split
+    · split
+      · exact ⟨_, rfl⟩
+      · exact ⟨_, rfl⟩
+    · exact ⟨_, rfl⟩
+
+theorem libLookup_updateGroup_ne (ev : RawEval) (ow : Bool) (cur : Lib) (g g' : Name) (ps : Option Obj) (h : g ≠ g') :
+    libLookup g' (updateGroup ev ow cur g ps).1 = libLookup g' cur := by
+  obtain ⟨v, hv⟩ := updateGroup_fst ev ow cur g ps
+  rw [hv, libLookup_libInsert]
+  simp [h]
+
+/-- the target's property sets can be copied (they are what the constructor accepts) -/
+def Copyable (self : Lib) : Prop := ∀ g m, libLookup g self = some (some m) → ∃ m', copy m = .ok m'
+
+/-- one group: if the first pass (against the target as it was) goes through, so does the storing of that group into a
+target that still holds for this group what it held -/
+theorem updateGroup_ok_of_trial (ev : RawEval) (ow : Bool) {cur self0 : Lib} {g : Name} (ps : Option Obj)
+    (hl : libLookup g cur = libLookup g self0) (ht : trialGroup ev ow self0 g ps = none) :
+    (updateGroup ev ow cur g ps).2 = none := by
+  unfold trialGroup at ht
+  unfold updateGroup
+  rw [hl]
+  cases ps with
+  | none => rfl
+  | some o =>
+    simp only at ht ⊢
+    split at ht
+    · split at ht
+      · rename_i o' ho
+        simp only
+      · cases ht
+    · rename_i m hm
+      split at ht
+      · cases ht
+      · rename_i m' hm'
+        simp only
+        rw [← update_copy_err ev hm']
+        exact ht
+
+/-- one group, with the exception: when the target's property set can be copied, the first pass raises exactly what
+storing the group raises -/
+theorem trialGroup_eq (ev : RawEval) (ow : Bool) {cur self0 : Lib} {g : Name} (ps : Option Obj)
+    (hl : libLookup g cur = libLookup g self0) (hc : Copyable self0) :
+    trialGroup ev ow self0 g ps = (updateGroup ev ow cur g ps).2 := by
+  unfold trialGroup updateGroup
+  rw [hl]
+  cases ps with
+  | none => rfl
+  | some o =>
+    simp only
+    cases hlk : libLookup g self0 with
+    | none =>
+      simp only
+      cases copy o <;> rfl
+    | some x =>
+      cases x with
+      | none =>
+        simp only
+        cases copy o <;> rfl
+      | some m =>
+        simp only
+        obtain ⟨m', hm'⟩ := hc g m hlk
+        simp only [hm']
+        exact update_copy_err ev hm' o.c ow
+
+/-- the first pass went through ⇒ the storing pass does not raise (the groups of the source are pairwise different: a
+Python mapping) -/
+theorem libUpdateOld_ok_of_trial (ev : RawEval) (ow : Bool) (self0 : Lib) :
+    ∀ (other cur : Lib), (other.map Prod.fst).Nodup → (∀ g ∈ other.map Prod.fst, libLookup g cur = libLookup g self0) →
+      libTrial ev ow self0 other = none → (libUpdateOld ev ow cur other).2 = none := by
+  intro other
+  induction other with
+  | nil => intro cur _ _ _; rfl
+  | cons gx rest ih =>
+    intro cur hnd hag ht
+    obtain ⟨g, ps⟩ := gx
+    simp only [List.map_cons, List.nodup_cons] at hnd
+    rw [libTrial] at ht
+    cases htg : trialGroup ev ow self0 g ps with
+    | some e => rw [htg] at ht; cases ht
+    | none =>
+      rw [htg] at ht
+      simp only at ht
+      have hok := updateGroup_ok_of_trial ev ow ps (hag g (by simp)) htg
+      rw [libUpdateOld]
+      cases hu : updateGroup ev ow cur g ps with
+      | mk cur' err =>
+        rw [hu] at hok
+        simp only at hok
+        subst hok
+        simp only
+        apply ih cur' hnd.2 _ ht
+        intro g' hg'
+        have hne : g ≠ g' := fun e => hnd.1 (e ▸ hg')
+        have := libLookup_updateGroup_ne ev ow cur g g' ps hne
+        rw [hu] at this
+        rw [this]
+        exact hag g' (by simp [hg'])
+
+/-- the exception of the first pass is the exception at which the old loop stopped -/
+theorem libTrial_eq (ev : RawEval) (ow : Bool) (self0 : Lib) (hc : Copyable self0) :
+    ∀ (other cur : Lib), (other.map Prod.fst).Nodup → (∀ g ∈ other.map Prod.fst, libLookup g cur = libLookup g self0) →
+      libTrial ev ow self0 other = (libUpdateOld ev ow cur other).2 := by
+  intro other
+  induction other with
+  | nil => intro cur _ _; rfl
+  | cons gx rest ih =>
+    intro cur hnd hag
+    obtain ⟨g, ps⟩ := gx
+    simp only [List.map_cons, List.nodup_cons] at hnd
+    rw [libTrial, libUpdateOld, trialGroup_eq ev ow ps (hag g (by simp)) hc]
+    cases hu : updateGroup ev ow cur g ps with
+    | mk cur' err =>
+      cases err with
+      | some e => rfl
+      | none =>
+        simp only
+        apply ih cur' hnd.2
+        intro g' hg'
+        have hne : g ≠ g' := fun e => hnd.1 (e ▸ hg')
+        have := libLookup_updateGroup_ne ev ow cur g g' ps hne
+        rw [hu] at this
+        rw [this]
+        exact hag g' (by simp [hg'])
+
+/-- **`Update` is all-or-nothing**: when it raises, the target library is what it was -/
+theorem libUpdate_atomic (ev : RawEval) (ow : Bool) (self other : Lib) (hnd : (other.map Prod.fst).Nodup) (e : UErr)
+    (h : (libUpdate ev ow self other).2 = some e) : (libUpdate ev ow self other).1 = self := by
+  unfold libUpdate at h ⊢
+  cases ht : libTrial ev ow self other with
+  | some e' => rfl
+  | none =>
+    rw [ht] at h
+    simp only at h
+    rw [libUpdateOld_ok_of_trial ev ow self other self hnd (fun _ _ => rfl) ht] at h
+    cases h
+
+/-- a merge that goes through gives what the method gave before the repair -/
+theorem libUpdate_ok_eq_old (ev : RawEval) (ow : Bool) (self other r : Lib) (h : libUpdate ev ow self other = (r, none)) :
+    libUpdateOld ev ow self other = (r, none) := by
+  unfold libUpdate at h
+  cases ht : libTrial ev ow self other with
+  | some e' => rw [ht] at h; cases h
+  | none => rw [ht] at h; exact h
+
+/-- the repaired method raises exactly when, and exactly what, the method raised before the repair -/
+theorem libUpdate_err_eq_old (ev : RawEval) (ow : Bool) (self other : Lib) (hnd : (other.map Prod.fst).Nodup)
+    (hc : Copyable self) : (libUpdate ev ow self other).2 = (libUpdateOld ev ow self other).2 := by
+  have ht := libTrial_eq ev ow self hc other self hnd (fun _ _ => rfl)
+  unfold libUpdate
+  cases h : libTrial ev ow self other with
+  | some e' => rw [← ht, h]
+  | none => rfl
+
+/-- … and a merge that went through before the repair goes through now, with the same result -/
+theorem libUpdate_of_old_ok (ev : RawEval) (ow : Bool) (self other r : Lib) (hnd : (other.map Prod.fst).Nodup)
+    (hc : Copyable self) (h : libUpdateOld ev ow self other = (r, none)) : libUpdate ev ow self other = (r, none) := by
+  have ht := libTrial_eq ev ow self hc other self hnd (fun _ _ => rfl)
+  rw [h] at ht
+  unfold libUpdate
+  rw [ht]
+  exact h
+
 /-! ### `GroupLibrary.Update` on libraries of parts -/
 
 /-- every whole is consistent and has a non-zero reference temperature -/
@@ -178,10 +387,10 @@ theorem updateGroup_inv (ev : RawEval) {Wg : Name → Corr} (hWg : WgOK Wg) {E :
 
 /-- merging a library of parts into a library of parts never fails; every group ends up holding the data of the entries
 of both -/
-theorem libUpdate_inv (ev : RawEval) {Wg : Name → Corr} (hWg : WgOK Wg) {E2 : Name → List Corr} :
+theorem libUpdateOld_inv (ev : RawEval) {Wg : Name → Corr} (hWg : WgOK Wg) {E2 : Name → List Corr} :
     ∀ (other : Lib) (self : Lib) (E1 : Name → List Corr), LibInv Wg E1 self → (other.map Prod.fst).Nodup →
       (∀ gx ∈ other, ∃ b, gx.2 = some (fresh b) ∧ PartOf b (Wg gx.1) ∧ Valid b ∧ Covers (E2 gx.1) b ∧ E2 gx.1 ≠ []) →
-      ∃ r, libUpdate ev false self other = (r, none) ∧
+      ∃ r, libUpdateOld ev false self other = (r, none) ∧
         LibInv Wg (fun g => E1 g ++ (if g ∈ other.map Prod.fst then E2 g else [])) r := by
   intro other
   induction other with
@@ -198,7 +407,7 @@ theorem libUpdate_inv (ev : RawEval) {Wg : Name → Corr} (hWg : WgOK Wg) {E2 : 
     obtain ⟨self', hs', hi'⟩ := updateGroup_inv ev hWg hi pb vb cb hEb
     obtain ⟨r, hr, hir⟩ := ih self' _ hi' hnd.2 (fun gx hgx => hall gx (by simp [hgx]))
     refine ⟨r, ?_, LibInv_congr ?_ hir⟩
-    · rw [libUpdate, hs']; exact hr
+    · rw [libUpdateOld, hs']; exact hr
     · intro g'
       simp only [List.map_cons, List.mem_cons]
       by_cases e : g' = g
@@ -206,6 +415,23 @@ theorem libUpdate_inv (ev : RawEval) {Wg : Name → Corr} (hWg : WgOK Wg) {E2 : 
         have : g' ∉ rest.map Prod.fst := hnd.1
         simp [this]
       · simp only [e, if_false, false_or]
+
+/-- a library of parts holds objects the constructor accepts -/
+theorem copyable_of_libInv {Wg : Name → Corr} {E : Name → List Corr} {self : Lib} (hi : LibInv Wg E self) : Copyable self := by
+  intro g m hl
+  have := hi.2 g
+  rw [hl] at this
+  obtain ⟨hm, _, vm, _, _⟩ := this
+  exact ⟨fresh m.c, by rw [hm]; exact copy_fresh vm⟩
+
+/-- the same for the repaired `Update`: its first pass goes through, so it stores what the old loop stored -/
+theorem libUpdate_inv (ev : RawEval) {Wg : Name → Corr} (hWg : WgOK Wg) {E2 : Name → List Corr}
+    (other : Lib) (self : Lib) (E1 : Name → List Corr) (hi : LibInv Wg E1 self) (hnd : (other.map Prod.fst).Nodup)
+    (hall : ∀ gx ∈ other, ∃ b, gx.2 = some (fresh b) ∧ PartOf b (Wg gx.1) ∧ Valid b ∧ Covers (E2 gx.1) b ∧ E2 gx.1 ≠ []) :
+    ∃ r, libUpdate ev false self other = (r, none) ∧
+      LibInv Wg (fun g => E1 g ++ (if g ∈ other.map Prod.fst then E2 g else [])) r := by
+  obtain ⟨r, hr, hir⟩ := libUpdateOld_inv ev hWg (E2 := E2) other self E1 hi hnd hall
+  exact ⟨r, libUpdate_of_old_ok ev false self other r hnd (copyable_of_libInv hi) hr, hir⟩
 
 /-! ### the groups of one file -/
 
